@@ -245,6 +245,35 @@ class InputsMachine(Machine):
         P['psfgrid'] = NDData(psfs, meta={
             'grid_xypos': [(0, 0), (31, 0), (0, 29), (31, 29)],
             'oversampling': 1})
+        # PSF models with parameters held fixed (forced photometry)
+        from photutils.psf import GriddedPSFModel
+        m = ImagePSF(P['psfimg'].copy(), flux=1.0, x_0=0, y_0=0)
+        m.x_0.fixed = True
+        m.y_0.fixed = True
+        P['imodel_fx'] = m
+        m = ImagePSF(P['psfimg'].copy(), flux=1.0, x_0=0, y_0=0)
+        m.flux.fixed = True
+        P['imodel_ff'] = m
+        m = GriddedPSFModel(NDData(psfs.copy(), meta={
+            'grid_xypos': [(0, 0), (31, 0), (0, 29), (31, 29)],
+            'oversampling': 1}))
+        m.x_0.fixed = True
+        m.y_0.fixed = True
+        P['gmodel_fx'] = m
+        m = CircularGaussianPRF(flux=1.0, fwhm=3.0)
+        m.x_0.fixed = True
+        m.y_0.fixed = True
+        P['model_fx'] = m
+        # gain / exposure map with zero pixels (documented: no Poisson
+        # term there), as an array, as a view and as a Quantity
+        gain0 = 1.0 + np.abs(clean) / (1.0 + np.abs(clean).max())
+        gain0[3:6, 7:10] = 0.0
+        P['gain0'] = gain0
+        gbase = np.zeros((data.shape[0] + 4, data.shape[1] + 6))
+        gbase[2:-2, 3:-3] = gain0
+        P['gain0_base'] = gbase
+        P['gain0_view'] = gbase[2:-2, 3:-3]
+        P['gain0_q'] = gain0 * (u.electron / u.Jy)
         P['nddata'] = NDData(data.copy(), mask=mask.copy(),
                              uncertainty=StdDevUncertainty(
                                  P['error'].copy()))
@@ -286,11 +315,11 @@ class InputsMachine(Machine):
              'epsf_star', 'ellipse_model', 'bkg_estimators', 'psf_matching',
              'other_apertures', 'region_convert', 'poisson_noise',
              'grid_from_epsfs', 'make_psf_model', 'ellipse_sample',
-             'psf_models_phot', 'params_to_models',
+             'psf_models_phot', 'params_to_models', 'psf_fixed_models',
              'actor_read', 'actor_read', 'actor_read']
     WEIGHTS = [3, 2, 3, 3, 1, 4, 2, 2, 4, 2, 2, 1, 1, 3, 3, 3, 2, 1, 1, 1, 2,
                1, 1, 0.3, 2, 1.5, 1.5, 1.5, 0.6, 1.5, 1, 1, 1.5, 0.4, 1.2,
-               0.6, 2, 1, 2, 1, 1, 1, 0.6, 1, 1.5, 1, 4, 4, 4]
+               0.6, 2, 1, 2, 1, 1, 1, 0.6, 1, 1.5, 1, 1.5, 4, 4, 4]
 
     def next_op(self, rng, st):
         if st.nsteps >= rng.randint(3, 9) and st.nsteps >= 3:
@@ -676,9 +705,12 @@ class InputsMachine(Machine):
         P = st.P
         if op['data'] == 'q':
             import astropy.units as u
+            gq = P['gain0_q'] if op['variant'] % 2 else \
+                2.0 * u.electron / u.Jy
             return self._run(st, op, lambda: calc_total_error(
-                data, P['error_q'], 2.0 * u.electron / u.Jy))
-        gain = P['clean'] if op['variant'] % 2 else 2.0
+                data, P['error_q'], gq))
+        gain = [2.0, P['clean'], P['gain0'], P['gain0_view'], 0.0,
+                P['gain0']][op['variant'] % 6]
         return self._run(st, op, lambda: calc_total_error(
             data, P['error'], gain))
 
@@ -769,6 +801,10 @@ class InputsMachine(Machine):
                    seg.areas, seg.bbox, len(seg.segments)]
             c = seg.copy()
             c.remove_border_labels(2, relabel=True)
+            c2 = seg.copy()
+            c2.remove_masked_labels(P['mask'] if mask is None else mask,
+                                    partial_overlap=bool(v % 2),
+                                    relabel=bool(v % 3))
             s0 = seg.segments[0]
             out.append(s0.make_cutout(data, masked_array=bool(v % 2)))
             out.append(seg[2:20, 3:25].nlabels)
@@ -1100,6 +1136,39 @@ class InputsMachine(Machine):
                                   if op.get('opt', 0) % 2 else None)
             t = ph(data, mask=mask, error=error, init_params=P['init'])
             return t, ph.make_model_image((30, 32))
+        return self._run(st, op, fn)
+
+    def _s_psf_fixed_models(self, st, op, data, mask, error):
+        """Forced photometry: models whose position (or flux) is fixed."""
+        import photutils.psf as pp
+        from photutils.datasets import make_model_image
+        P = st.P
+        v, o = op['variant'], op.get('opt', 0)
+        model = P[['imodel_fx', 'gmodel_fx', 'model_fx', 'imodel_ff',
+                   'imodel_fx', 'gmodel_fx'][v]]
+
+        def fn():
+            if o == 0:
+                return make_model_image((30, 32), model, P['params'],
+                                        model_shape=(7, 7))
+            if o == 1:
+                return pp.make_psf_model_image(
+                    (30, 32), model, 3, model_shape=(7, 7), flux=(50, 100),
+                    min_separation=3, seed=v)
+            if o == 2:
+                ph = pp.IterativePSFPhotometry(
+                    model, 5, __import__('photutils.detection').detection
+                    .DAOStarFinder(5.0, 3.0), aperture_radius=4, maxiters=2)
+                return ph(data, mask=mask, error=error,
+                          init_params=P['init'])
+            ph = pp.PSFPhotometry(model, 5, aperture_radius=4,
+                                  grouper=pp.SourceGrouper(4)
+                                  if o % 2 else None)
+            t = ph(data, mask=mask, error=error, init_params=P['init'])
+            if o >= 5:
+                return t, ph.make_model_image((30, 32)), \
+                    ph.make_residual_image(data)
+            return t
         return self._run(st, op, fn)
 
     def _s_params_to_models(self, st, op, data, mask, error):
